@@ -52,7 +52,7 @@ MANIFEST = dict(
          'house-keeping vs. requests are not modelled (ops are atomic).',
     ref='5 C08')
 DRIVERS = ['drv_c08']
-RULE = ('one case = manager class x max duration x failure limit x op list (subscribe/renew/status/unsubscribe with known, '
+RULE = ('one case = manager class x max duration x failure limit x library logging on/off x op list (subscribe/renew/status/unsubscribe with known, '
         'unknown, wrong-slot identifiers, notify, tick to/around expiry and grace boundaries, delivery outcome changes, '
         'house-keeping, stop); distinct by SHA-1 of the canonical case; non-trivial = at least one notification delivered '
         'and at least one notification withheld from an accepted subscription')
@@ -60,7 +60,8 @@ TRUSTED = ['fake http layer (FakeConn/FakeSession) under the real soap clients a
            'lxml + message factory/reader used to build requests and to decode posted messages',
            'asyncio event loop (run_until_complete per op) for the async managers',
            'ops are atomic: no interleaving of the house-keeping thread with a request inside one handler']
-ASSUMPTIONS = ['all durations and clock advances are multiples of 10 ms (remaining_seconds rounds to 2 digits)',
+ASSUMPTIONS = ['half of the generated cases and a copy of every directed / corpus case run with the library loggers enabled at DEBUG (eager formatting of log arguments is part of the code under test); output discarded',
+               'all durations and clock advances are multiples of 10 ms (remaining_seconds rounds to 2 digits)',
                'notified actions carry no surrounding white space (matches() strips it)',
                'subscriber / network behaviours: ok, HTTP 500 with soap fault, HTTP 200 with a non-xml body, connection refused, connect time-out, '
                'established connections reset (subscriber restarted); the wire-level clause not-sent-on-fresh-connection is evaluated until the first stop']
@@ -825,8 +826,49 @@ class Monitor:
         self.stopped = True
 
 
+class _FormatAndDrop(__import__('logging').Handler):
+    """formats every record like a real handler would and throws it away"""
+
+    def emit(self, record):
+        try:
+            record.getMessage()
+        except Exception:  # noqa: BLE001   (standard handlers swallow formatting errors of %-style records, too)
+            pass
+
+
+def library_logging(on):
+    """cases with `log` set run with the library's loggers enabled at DEBUG: sdc11073.loghelper.LoggerAdapter formats its
+    arguments eagerly (str.format, repr of subscriptions / exceptions, callables) and re-raises, so every log call on the paths
+    of the managers is code that runs inside request handling / report distribution. Output is discarded."""
+    import logging
+    if not on:
+        logging.disable(logging.CRITICAL)
+        return
+    logging.disable(logging.NOTSET)
+    logging.raiseExceptions = False
+    root = logging.getLogger()
+    if not any(isinstance(h, _FormatAndDrop) for h in root.handlers):
+        for h in root.handlers[:]:
+            root.removeHandler(h)
+        root.addHandler(_FormatAndDrop(level=logging.DEBUG))
+    root.setLevel(logging.DEBUG)
+    for name in ('sdc', 'sdc.device', 'sdc.device.subscrMgr', 'sdc.device.soap_client_pool', 'sdc.verif.soapclient'):
+        logging.getLogger(name).setLevel(logging.DEBUG)
+
+
 def execute(case):
     """run one case on the implementation; returns (driver lines, impl answers, oracle failures, stats)"""
+    import contextlib
+    import io
+    library_logging(bool(case.get('log')))
+    try:
+        with contextlib.redirect_stdout(io.StringIO()):    # LoggerAdapter prints a traceback when formatting fails
+            return _execute(case)
+    finally:
+        library_logging(False)
+
+
+def _execute(case):
     env = Env(case)
     c = env.cfg
     lines = [f'cfg {c["dispatch"]} {c["maxdur"]} {c["maxerr"]} {c["check_dialect"]}']
@@ -932,7 +974,7 @@ def gen_case(rng, arbitrary_filters=True):  # noqa: C901, PLR0912, PLR0915
             ops.append(['hk'])
         else:
             ops.append(['stop', rng.random() < 0.8])
-    return dict(mgr=mgr, maxdur=maxdur, maxerr=maxerr, ops=ops)
+    return dict(mgr=mgr, maxdur=maxdur, maxerr=maxerr, ops=ops, log=rng.random() < 0.5)
 
 
 def directed_cases():
@@ -1001,7 +1043,7 @@ def directed_cases():
                [['notify', a0], ['stop', True]])
         mk('grace-boundary', [['sub', 0, None, [a0], True, 1000, True], ['unsub', *k(0)], ['tick', 100], ['hk'], ['tick', 1], ['hk'],
                               ['sub', 0, None, [a0], True, 1000, True], ['status', *k(1)], ['notify', a0]])
-    return res
+    return res + [dict(c, log=True) for c in res]
 
 
 # ---------------------------------------------------------------------------------------------- translator
@@ -1087,6 +1129,7 @@ def _evaluate(ctx, cases, label):
             ctx.count(kk, v)
         ctx.count(f'cases:{label}')
         ctx.count('mgr:' + case['mgr'])
+        ctx.count('library-logging:' + ('on' if case.get('log') else 'off'))
         for sig, detail in fails:
             if sig == 'harness-error':
                 raise RuntimeError(detail)
@@ -1097,7 +1140,7 @@ def _evaluate(ctx, cases, label):
             ctx.fail(sig, detail, small)
         if lines is None:
             continue
-        canon = {k2: case[k2] for k2 in ('mgr', 'maxdur', 'maxerr', 'ops')}
+        canon = {k2: case.get(k2) for k2 in ('mgr', 'maxdur', 'maxerr', 'ops', 'log')}
         nontrivial = stats.get('delivered', 0) > 0 and stats.get('withheld', 0) > 0
         ctx.case(canon, nontrivial=nontrivial,
                  sample={'case': canon, 'impl': outs} if (nontrivial and len(case['ops']) <= 14) else None)
@@ -1110,7 +1153,7 @@ def _evaluate(ctx, cases, label):
             if model != outs:
                 j = next(i for i, (a, b) in enumerate(zip(model, outs)) if a != b)
                 ctx.disagree('model step == manager answer / transport log',
-                             {'mgr': case['mgr'], 'maxdur': case['maxdur'], 'maxerr': case['maxerr'], 'ops': case['ops'][:j],
+                             {'mgr': case['mgr'], 'maxdur': case['maxdur'], 'maxerr': case['maxerr'], 'log': case.get('log'), 'ops': case['ops'][:j],
                               'line': all_lines[start + j]}, model[j], outs[j])
 
 
@@ -1223,8 +1266,13 @@ def run(ctx):
     if bad:
         ctx.fail('delivered-not-in-filter:real-action-suffix', f'action {bad[0][0]} is a proper suffix of action {bad[0][1]}',
                  {'actions': bad[0]})
-    _evaluate(ctx, _corpus(), 'corpus')
+    _evaluate(ctx, _corpus() + [dict(c, log=True) for c in _corpus()], 'corpus')
     consumer_loopback(ctx)
+    library_logging(True)
+    try:
+        consumer_loopback(ctx)
+    finally:
+        library_logging(False)
     _evaluate(ctx, directed_cases(), 'directed')
     rng = ctx.subrng('cases')
     _evaluate(ctx, [gen_case(rng) for _ in range(ctx.n(700, 50000))], 'generated')
